@@ -764,6 +764,7 @@ class Sim:
                            'idle_elsewhere': any(len(b2.conn_stack) > 0 for b2 in p._blocks.values()
                                                  if b2 is not b)})
             st['tick_crashing'] = self.last_tick_crash
+            st['tick_armed'] = p._htick is not None
             starved.append(st)
         bad_fail = []
         for t, (db, exc) in self.failed_acq.items():
